@@ -60,6 +60,12 @@ def run(name, pids):
     assert not out.strip(), '/repo not clean: ' + out
     rc, out = sh('git apply %s' % os.path.join(d, 'patch.diff'), cwd=REPO)
     assert rc == 0, 'patch does not apply: ' + out
+    # the evidence files describe the unchanged tree: keep them out of the way while a seeded change is applied
+    saved = {}
+    for pid in pids:
+        ev = os.path.join(VERIF, 'evidence', pid + '.json')
+        if os.path.exists(ev):
+            saved[ev] = open(ev, 'rb').read()
     try:
         for pid in pids:
             rc, out = sh('./check %s --tier quick' % pid, cwd=VERIF, timeout=3600)
@@ -69,6 +75,8 @@ def run(name, pids):
             print(name, pid, 'rc=%d' % rc, meta['checks'][pid]['line'])
     finally:
         sh('git checkout -- .', cwd=REPO)
+        for ev, data in saved.items():
+            open(ev, 'wb').write(data)
     rc, out = sh('git status --short', cwd=REPO)
     assert not out.strip(), '/repo not restored: ' + out
     json.dump(meta, open(os.path.join(d, 'meta.json'), 'w'), indent=1)
